@@ -420,7 +420,6 @@ func famOf(a netip.Addr) string {
 	return "v6"
 }
 
-
 // c12Refresh: many clients (one address each) repeat their own 6 s question when the entry is in
 // the last quarter of its lifetime; every hit starts a background refresh. Each upstream query for
 // a client's name - the refresh included - must carry that client's prefix (or no ECS when off).
